@@ -100,7 +100,7 @@ func renderDoc(sb *strings.Builder, j map[string]interface{}, ws int) {
 		sb.WriteString(numLit[sstr(j["c"])])
 	case "s":
 		sb.WriteString(strLit[sstr(j["c"])][0])
-	case "x":
+	case "x", "xs":
 		sb.WriteString(xLit[sstr(j["c"])])
 	case "a":
 		sb.WriteByte('[')
@@ -139,7 +139,7 @@ func docText(j map[string]interface{}, ws int) string {
 // compact signature of a document (classes, not literals)
 func docSig(j map[string]interface{}) string {
 	switch sstr(j["j"]) {
-	case "n", "s", "x":
+	case "n", "s", "x", "xs":
 		return sstr(j["c"])
 	case "a":
 		var p []string
